@@ -162,6 +162,15 @@ def judgeGas (st : DState) (fields : List String) (impl : Option Outcome) : Stri
             | .ok _ => "VIOLATION:fee-collection-reverted-instead-of-skipping-over-balance-entries"
             | .error _ => "ok"
           | none => "ok"
+         else if func == "refund" then
+          -- a refund requested by the collector within the balance goes through, in full
+          match World.pay w src dst egld esdt with
+          | some w1 =>
+            match GasService.call C w.gs ⟨src, w.owner dst, egld, esdt, World.balanceOf w1 dst⟩ func args with
+            | .ok out => if (World.applySends { w1 with gs := out.st } dst out.sends).isSome then
+                "VIOLATION:refund-by-the-collector-refused" else "ok"
+            | .error _ => "ok"
+          | none => "ok"
          else "ok") else
       let evs := (implEvents impl).filter (·.addr == dst)
       -- what the service's own rules allow, evaluated on the pre-state with the payment credited
@@ -268,7 +277,17 @@ def judgeGov (prop : String) (st : DState) (fields : List String) (impl : Option
     match ofHex dst, parseArgs args with
     | some dst, some args =>
       if w.kind dst != some .governance then "ok" else
-      if !implOk impl then "ok" else
+      if !implOk impl then
+        -- completeness clauses: what the rules grant must not be refused
+        (if !modelOk then "ok" else
+         match prop, func with
+         | "C11", "executeProposal" => "VIOLATION:scheduled-matured-uncancelled-proposal-refused"
+         | "C11", "execute" => "VIOLATION:authenticated-time-lock-command-refused"
+         | "C12", "executeOperatorProposal" => "VIOLATION:approved-operator-proposal-refused"
+         | "C12", "execute" => "VIOLATION:authenticated-command-refused"
+         | "C16", "withdrawRefundToken" => "VIOLATION:refund-withdrawal-refused"
+         | _, _ => "ok")
+      else
       match prop, func, args with
       | "C11", "executeProposal", [t, cd, v] =>
         let h := Governance.proposalHash C t cd (Codec.topBig v)
@@ -446,6 +465,9 @@ def judgeIts (prop : String) (st : DState) (fields : List String) (impl : Option
           | some (c, a, _) =>
             if calls.all (fun e => e.topics.getD 1 [] == c && e.topics.getD 2 [] == a) && calls.length == 1 then "ok"
             else "VIOLATION:outbound-message-not-sent-to-trusted-peer")
+      else if prop == "C08" && func == "execute" && !implOk impl && modelOk then
+        -- "the message stays approved and can be retried": an approved, unlocked transfer with data must start
+        "VIOLATION:approved-unlocked-transfer-with-data-refused"
       else if prop == "C19" && func == "revokeDeployRemoteInterchainToken" && !implOk impl && modelOk then
         -- "can be revoked by its author": the rules let every caller clear the entry under his own key, whatever
         -- happened to the chain or to the minter role since
